@@ -118,8 +118,9 @@ class _State:
         # make durations tunable
         if self.duration is not None:
             duration_attr = name + "_duration"
-            # don't create it twice (in case of inheritance overriding)
-            if getattr(owner, duration_attr, None) is None:
+            # don't create it twice; a redefinition in a subclass brings
+            # its own default
+            if duration_attr not in vars(owner):
                 setattr(
                     owner,
                     duration_attr,
